@@ -45,3 +45,6 @@
 #ifndef VERIF_LOOP_p2bin_measure
 #define VERIF_LOOP_p2bin_measure
 #endif
+#ifndef VERIF_LOOP_toolutils_filterlist
+#define VERIF_LOOP_toolutils_filterlist
+#endif
